@@ -1085,15 +1085,24 @@ def check_embedding(ctx, info, r, stats):
         return
     lam = [v[0] for v in vals]
     scale = max(1.0, max(abs(x) for x in lam))
-    # oracle contract: B v = lam v, V^T V = I
+    # oracle contract assumed by isomap_embedding_top_d_partial / isomap_subspace_optimal, validated on this call:
+    # B V = V diag(lam), V^T V = I, V V^T = I, lam ascending
+    worst_c = 0.0
     for j in range(N):
         v = [vecs[i][j] for i in range(N)]
-        res = max(abs(sum(B[i][t] * v[t] for t in range(N)) - lam[j] * v[i]) for i in range(N))
-        nrm = sum(x * x for x in v)
-        if res > 1e-8 * scale or abs(nrm - 1) > 1e-8:
-            ctx.note("Eigen oracle contract violated (residual %g); embedding not judged" % res)
-            stats["emb_oracle_bad"] += 1
-            return
+        worst_c = max(worst_c, max(abs(sum(B[i][t] * v[t] for t in range(N)) - lam[j] * v[i]) for i in range(N)) / scale)
+        if j + 1 < N and lam[j] > lam[j + 1] + 1e-12 * scale:
+            worst_c = max(worst_c, 1.0)
+    for a in range(N):
+        for b in range(a, N):
+            e = 1.0 if a == b else 0.0
+            worst_c = max(worst_c, abs(sum(vecs[t][a] * vecs[t][b] for t in range(N)) - e),
+                          abs(sum(vecs[a][m] * vecs[b][m] for m in range(N)) - e))
+    stats["oracle_contract_worst"] = max(stats["oracle_contract_worst"], worst_c)
+    if worst_c > 1e-8:
+        ctx.note("Eigen oracle contract violated (%g); embedding not judged" % worst_c)
+        stats["emb_oracle_bad"] += 1
+        return
     top = list(range(N - d, N))
     if lam[N - d] <= 1e-7 * scale or (N - d - 1 >= 0 and lam[N - d] - lam[N - d - 1] <= 1e-6 * scale):
         stats["emb_degenerate"] += 1
@@ -1119,7 +1128,7 @@ def new_stats():
     return {"model_rows": 0, "traces": 0, "trace_agree": 0, "trace_disagree": 0, "trace_calls": 0,
             "skipped_runs": 0, "big_rows_checked": 0, "tolerance_matrices": 0, "old_f4_model_differs": 0, "iso": {}, "iso_exceptions": 0,
             "iso_disconnected": 0, "B_exact": 0, "B_tolerance": 0, "emb_checked": 0, "emb_degenerate": 0,
-            "emb_oracle_bad": 0, "emb_worst_rel": 0.0}
+            "emb_oracle_bad": 0, "emb_worst_rel": 0.0, "oracle_contract_worst": 0.0}
 
 
 def build_all(ctx, with_iso_fib=True):
